@@ -80,7 +80,7 @@ VALIDATOR_EXC = ["ValueError", "KeyError", "RuntimeError", "PyroError", "Securit
 
 first_kinds = st.sampled_from(["connect"] * 6 + ["invoke", "invoke", "ping", "result", "connectok", "connectfail", "type0", "type7", "type255"])
 shapes = st.sampled_from(["ok", "ok", "ok", "ok", "no-handshake", "no-object", "empty-dict", "list", "str", "none", "nested", "int", "extra-keys"])
-objects = st.sampled_from(["t", "t", "t", "sess", "Pyro.Daemon", "nope", "gone", "gone", "", "T", "t ", 5, None, ["t"]])
+objects = st.sampled_from(["t", "t", "t", "sess", "Pyro.Daemon", "nope", "gone", "gone", "", "T", "t ", 5, None, ["t"], {"t": 1}, [], {}, 1.5, True])
 mals = st.sampled_from([None] * 8 + ["magic", "version", "tag", "dlen+", "dlen-", "alen+", "oversize", "undecodable", "truncate-header", "truncate-body",
                                      "compressed-flag", "garbage"])
 sers = st.sampled_from(["marshal", "marshal", "json", "serpent", "msgpack"])
@@ -93,10 +93,11 @@ pipeline_item = st.one_of(
 
 @st.composite
 def case_strategy(draw):
-    if draw(st.integers(0, 9)) < 4:
-        # a perfectly good first message: everything then depends on the validator / the pool
+    branch = draw(st.integers(0, 9))
+    if branch < 5:
+        # a perfectly good first message: everything then depends on the validator / the pool (branch 4: ... and on the object named)
         first = {"kind": "connect", "ser": draw(sers), "ser_id": None, "shape": draw(st.sampled_from(["ok", "ok", "nested", "extra-keys"])),
-                 "object": draw(st.sampled_from(["t", "sess", "Pyro.Daemon"])), "mal": None,
+                 "object": draw(st.sampled_from(["t", "sess", "Pyro.Daemon"]) if branch < 4 else objects), "mal": None,
                  "flags": draw(st.sampled_from([0, 0, 64, 1, 4, 8])), "seq": draw(st.sampled_from([0, 0, 1, 7, 65535]))}
     else:
         first = {"kind": draw(first_kinds), "ser": draw(sers), "ser_id": draw(bad_ser_ids), "shape": draw(shapes), "object": draw(objects),
